@@ -28,6 +28,12 @@ pub trait System: Sync {
     }
     fn init(&self) -> Self::State;
     fn actions(&self, s: &Self::State, out: &mut Vec<Self::Action>);
+    /// Actions enabled in a state found at BFS depth `depth`. Systems override this to offer
+    /// expensive actions (e.g. storms of 65536 resets) only near the initial state; the default
+    /// ignores the depth.
+    fn actions_at(&self, s: &Self::State, _depth: u32, out: &mut Vec<Self::Action>) {
+        self.actions(s, out)
+    }
     /// Must be a pure function of (s, a): restores any ambient state (mock clock) from `s`,
     /// copies the real object, calls the real method, lets the oracle judge.
     fn step(&self, s: &Self::State, a: &Self::Action) -> Step<Self::State>;
@@ -82,7 +88,7 @@ impl Default for Limits {
     fn default() -> Self {
         Limits {
             max_states: 20_000_000,
-            max_wall: Duration::from_secs(1500),
+            max_wall: Duration::from_secs(std::env::var("XS_MAX_WALL_S").ok().and_then(|s| s.parse().ok()).unwrap_or(1500)),
             restoration_check: true,
             obs_cap: 2_000_000,
             states_after_violation: 300_000,
@@ -213,9 +219,9 @@ fn replay_mode<S: System>(sys: &S) -> Option<Outcome<S>> {
     let mut cur = sys.init();
     let mut trace: Vec<S::Action> = Vec::new();
     let mut acts = Vec::new();
-    for want in actions.split(';').filter(|a| !a.is_empty()) {
+    for (step_no, want) in actions.split(';').filter(|a| !a.is_empty()).enumerate() {
         acts.clear();
-        sys.actions(&cur, &mut acts);
+        sys.actions_at(&cur, step_no as u32, &mut acts);
         let a = match acts.iter().find(|a| sys.render(a) == want) {
             Some(a) => a.clone(),
             None => {
@@ -284,7 +290,7 @@ pub fn explore<S: System>(sys: &S, limits: &Limits) -> Outcome<S> {
         }
         // estimate the action fan-out to size batches at about 8M transitions
         let mut tmp = Vec::new();
-        sys.actions(&nodes[lo].state, &mut tmp);
+        sys.actions_at(&nodes[lo].state, nodes[lo].depth, &mut tmp);
         let fan = tmp.len().max(1);
         let batch = (8_000_000 / fan).clamp(256, 1 << 20);
         let mut b_lo = lo;
@@ -316,7 +322,7 @@ pub fn explore<S: System>(sys: &S, limits: &Limits) -> Outcome<S> {
                     for id in a..b {
                         let st = &nodes_ref[id].state;
                         acts.clear();
-                        sys.actions(st, &mut acts);
+                        sys.actions_at(st, nodes_ref[id].depth, &mut acts);
                         for act in acts.iter() {
                             let r = match crate::catch(|| sys.step(st, act)) {
                                 Ok(r) => r,
